@@ -188,6 +188,56 @@ theorem initiator_done_iff (H : Nat → Nat → C) (n1 : Nat) (p1 : String) (n2 
     · simp [h2, Outcome.initiatorDone]
   · simp [h1, Outcome.initiatorDone]
 
+/-! ## Connection level (`conn` ops: the real `authenticated_connection.go` sides) -/
+
+/-- Connection-level result, responder side: `runHandshakeAsResponder` completes **iff** the four
+    conditions hold for the acts as delivered (restatement of `handshake_completes_iff` as the
+    Boolean the monitor computes). -/
+theorem conn_responder_completes_iff (H : Nat → Nat → C) (n1 : Nat) (p1 : String) (n2 : Nat)
+    (p2 : String) (net : Net C) :
+    (run H n1 p1 n2 p2 net).connObs.2 = true ↔
+      (net.f1 ⟨n1, p1⟩).proto = p2 ∧
+      (net.f2 ⟨n2, H (net.f1 ⟨n1, p1⟩).nonce n2, p2⟩).proto = p1 ∧
+      (net.f2 ⟨n2, H (net.f1 ⟨n1, p1⟩).nonce n2, p2⟩).challenge
+        = H n1 (net.f2 ⟨n2, H (net.f1 ⟨n1, p1⟩).nonce n2, p2⟩).nonce ∧
+      (net.f3 ⟨(net.f2 ⟨n2, H (net.f1 ⟨n1, p1⟩).nonce n2, p2⟩).challenge⟩).challenge
+        = H (net.f1 ⟨n1, p1⟩).nonce n2 :=
+  handshake_completes_iff H n1 p1 n2 p2 net
+
+/-- Connection-level result, initiator side: `runHandshakeAsInitiator` finishes **iff** the first
+    three conditions hold (it never learns whether the responder accepts act 3). -/
+theorem conn_initiator_done_iff (H : Nat → Nat → C) (n1 : Nat) (p1 : String) (n2 : Nat)
+    (p2 : String) (net : Net C) :
+    (run H n1 p1 n2 p2 net).connObs.1 = true ↔
+      (net.f1 ⟨n1, p1⟩).proto = p2 ∧
+      (net.f2 ⟨n2, H (net.f1 ⟨n1, p1⟩).nonce n2, p2⟩).proto = p1 ∧
+      (net.f2 ⟨n2, H (net.f1 ⟨n1, p1⟩).nonce n2, p2⟩).challenge
+        = H n1 (net.f2 ⟨n2, H (net.f1 ⟨n1, p1⟩).nonce n2, p2⟩).nonce := by
+  show (run H n1 p1 n2 p2 net).initiatorDone = true ↔ _
+  rw [initiator_done_iff]
+  simp only [expectedInitiatorDone, Bool.and_eq_true, decide_eq_true_eq]
+  constructor
+  · rintro ⟨⟨a, b⟩, c⟩; exact ⟨a, b, c⟩
+  · rintro ⟨a, b, c⟩; exact ⟨⟨a, b⟩, c⟩
+
+/-- The responder never completes unless the initiator's side finished. -/
+theorem conn_responder_implies_initiator (H : Nat → Nat → C) (n1 : Nat) (p1 : String) (n2 : Nat)
+    (p2 : String) (net : Net C) (h : (run H n1 p1 n2 p2 net).connObs.2 = true) :
+    (run H n1 p1 n2 p2 net).connObs.1 = true := by
+  obtain ⟨a, b, c, _⟩ := (conn_responder_completes_iff H n1 p1 n2 p2 net).1 h
+  exact (conn_initiator_done_iff H n1 p1 n2 p2 net).2 ⟨a, b, c⟩
+
+/-- The `conn` monitor accepts the observation of every model run (every `H`, nonces, protocols,
+    network). -/
+theorem holds_model_conn (H : Nat → Nat → C) (n1 : Nat) (p1 : String) (n2 : Nat) (p2 : String)
+    (net : Net C) :
+    holdsConn H n1 p1 n2 p2 net (run H n1 p1 n2 p2 net).connObs.1 (run H n1 p1 n2 p2 net).connObs.2
+      = true := by
+  have h1 := completes_eq_expected H n1 p1 n2 p2 net
+  have h2 := initiator_done_iff H n1 p1 n2 p2 net
+  simp only [expectedComplete, expectedInitiatorDone] at h1 h2
+  simp only [holdsConn, Outcome.connObs, h1, h2, beq_self_eq_true, Bool.and_self]
+
 /-! ## Wire level (acts that do not unmarshal) -/
 
 /-- When every delivered act unmarshals, the wire-level run is the message-level run: all theorems
